@@ -681,6 +681,8 @@ def _sentinel_agreement(ctx, prog, fa, sentinel: T):
             continue
         A = tm.attr(tm.param("args"), "n_to_align")
         env = {A: cli}
+        ctx.require(f"evo.main_{app}.run" in results,
+                    f"anchor function vanished: evo.main_{app}.run")
         run = results[f"evo.main_{app}.run"]
         chain = f"--n_to_align default {cli!r}"
         try:
